@@ -32,6 +32,8 @@ class JsonMLConverter(XMLSchemaConverter):
     """
     __slots__ = ()
 
+    xmlns_root_level = 0  # a nested list at level 1 is a child element
+
     def __init__(self, namespaces: NsmapType | None = None,
                  dict_class: type[dict[str, Any]] | None = None,
                  list_class: type[list[Any]] | None = None,
